@@ -350,7 +350,7 @@ fn gauss_emit(out: &mut Out, case: &str, sh: &Value, mat: &Mat, expect: Option<&
     out.ev(ev);
 }
 
-fn lanczos_event(out: &mut Out, case: &str, sh: &Value, mat: &Mat, rep: u64, deadline: f64) {
+fn lanczos_event(out: &mut Out, case: &str, sh: &Value, mat: &Mat, rep: u64, deadline: f64) -> bool {
     let (nrows, ncols) = (mat.nrows, mat.cols.len());
     let base = json!({"op": "kernel_lanczos", "case": case, "rep": rep, "shape": sh, "nrows": nrows, "ncols": ncols, "m": mat.cols});
     let sm = SparseMat { k: nrows, cols: mat.cols.clone() };
@@ -358,8 +358,15 @@ fn lanczos_event(out: &mut Out, case: &str, sh: &Value, mat: &Mat, rep: u64, dea
         kernel_lanczos(&sm, Verbosity::Silent).into_iter().map(|v| v.into_usizes()).collect::<Vec<Vec<usize>>>()
     });
     match r {
-        Ok(k) => out.ev(merge(base, json!({"k": k}))),
-        Err(o) => out.ev(merge(base, o)),
+        Ok(k) => {
+            out.ev(merge(base, json!({"k": k})));
+            false
+        }
+        Err(o) => {
+            let hung = o["outcome"] == "timeout";
+            out.ev(merge(base, o));
+            hung
+        }
     }
 }
 
@@ -367,7 +374,10 @@ pub fn run(args: &Args) -> i32 {
     let seed = arg_u64(args, "seed", 1);
     let reps = arg_u64(args, "reps", 3);
     // deadline of one call, seconds (normal times: < 5 s for the largest matrices)
-    let deadline = arg_u64(args, "deadline", 1800) as f64;
+    let deadline = arg_u64(args, "deadline", 300) as f64;
+    // a call that does not come back is abandoned (its thread keeps spinning): after two of them no further
+    // Lanczos call is made - the events recorded so far decide
+    let mut hung_calls = 0;
     let mut out = Out::create(arg_str(args, "out", "trace.ndjson"));
     let mut rng = rng_for(seed, "c14");
     let mut skipped = 0;
@@ -411,8 +421,28 @@ pub fn run(args: &Args) -> i32 {
                         skipped += 1;
                         continue;
                     }
+                    // variant: the LAST column supported on the dense block only (rows 0..63) - with an odd number of
+                    // columns it sits alone in the last lane of the last word pair of the block products
+                    if mat.cols.len() % 2 == 1 && hung_calls < 2 {
+                        let mut m2 = Mat { nrows: mat.nrows, cols: mat.cols.clone() };
+                        let last = m2.cols.len() - 1;
+                        let mut c: Vec<usize> = (0..64).filter(|_| rng.gen_bool(0.3)).collect();
+                        if c.is_empty() {
+                            c.push(rng.gen_range(0..64));
+                        }
+                        m2.cols[last] = c;
+                        if lanczos_event(&mut out, &format!("lanczos/{}/lastlow", i), sh, &m2, 0, deadline) {
+                            hung_calls += 1;
+                        }
+                    }
                     for rep in 0..reps {
-                        lanczos_event(&mut out, &format!("lanczos/{}", i), sh, &mat, rep, deadline);
+                        if hung_calls >= 2 {
+                            skipped += 1;
+                            continue;
+                        }
+                        if lanczos_event(&mut out, &format!("lanczos/{}", i), sh, &mat, rep, deadline) {
+                            hung_calls += 1;
+                        }
                     }
                 }
                 a => panic!("unknown alg {}", a),
